@@ -6,7 +6,7 @@ A contract may declare ghost={"independent_iterations": {<loop ordinal>: [accumu
       read on every path of the body - nothing computed for an earlier element can flow into a later one;
   (2) an accumulator is only extended (`acc += ...`, `acc.append/extend(...)`, a cell assignment `acc[k] = v` / `acc.at[i, c] = v`),
       never read, rebound or shrunk;
-  (3) the loop has no `break` (every element is processed).
+  (3) the loop has no `break` and no `return` / `raise` that every iteration reaches (every element is processed).
 Each condition becomes an obligation `<cid>:independent:loop<k>.<what>`; a failing one carries the variable and line as its reason.
 Object fields written through parameters are NOT covered here (they are frame obligations of the symbolic run)."""
 import ast
@@ -74,9 +74,12 @@ class Analysis:
             elif r.id in self.tracked and r.id not in defined:
                 self.problems.append(("read-before-assignment", r.id, r.lineno))
 
-    def block(self, stmts, defined):
+    def block(self, stmts, defined, top=False):
         """returns the set definitely assigned after the block (None if the block always leaves the iteration)"""
         for s in stmts:
+            if top and isinstance(s, (ast.Return, ast.Raise)):
+                # an exit that every iteration reaches: only the first element would ever be processed
+                self.problems.append(("break", "unconditional " + type(s).__name__.lower(), s.lineno))
             defined = self.stmt(s, defined)
             if defined is None:
                 return None
@@ -195,7 +198,7 @@ def check_loop(loop, accs):
     def strip(stmts):
         return stmts
     start = set(targets)
-    an.block(loop.body, start)
+    an.block(loop.body, start, top=True)
     # a `break` reported from inside a nested loop belongs to that loop
     inner_break_lines = set()
     for n in ast.walk(ast.Module(body=loop.body, type_ignores=[])):
